@@ -288,8 +288,6 @@ def desc_eq(obs, exp):
 
 
 def relevant_values(label, values, rng, tier):
-    if tier == "thorough":
-        return [v for v in values if v is not None]
     cats = {"string": QUOTE_STR, "date": DATE_STR, "date-time": DATE_STR, "uuid": UUID_STR, "integer": INTS + FLOATS + NUM_STR, "number": INTS + FLOATS + NUM_STR,
             "boolean": BOOLS + BOOL_STR + [0, 1], "binary": ["x"], "any": QUOTE_STR[:8] + OTHERS + [1, 1.5, True, float("inf")],
             "enum-str": ["a", "b", "A b", "3", "true", 'q"t', "2020-01-02", "A", "c", "", 3, True], "enum-int": [1, 0, -7, 3, 2, True, 1.0, "1", -1],
@@ -300,7 +298,9 @@ def relevant_values(label, values, rng, tier):
     own = [v for v in cats.get(label, []) if not (isinstance(v, str) and not vals.is_jsonable_str(v))]
     generic = [5, True, 1.5, "x", "3", [1, 2], {"a": True}]
     cap = 26
-    if len(own) > cap:
+    if tier == "thorough":
+        generic = generic + rng.sample([v for v in values if v is not None], 45)
+    elif len(own) > cap:
         own = own[:10] + rng.sample(own[10:], cap - 10)
     out = []
     for v in own + generic:
